@@ -620,6 +620,17 @@ pub fn run(tier: &str, only: Option<&Value>) -> i32 {
                     let lines: Vec<&str> = text.split('\n').collect();
                     Some(line >= 1 && line <= lines.len() && col >= 1 && col <= lines[line - 1].chars().count() + 1)
                 });
+                // another wording is fine as long as it names the file and a line / column pair inside it
+                let pos_ok = pos_ok.or_else(|| {
+                    let fname = p.file_name()?.to_str()?.to_string();
+                    if !msg.contains(&fname) {
+                        return None;
+                    }
+                    let stripped = msg.replace(&p.display().to_string(), " ").replace(&fname, " ");
+                    let nums: Vec<usize> = stripped.split(|c: char| !c.is_ascii_digit()).filter(|t| !t.is_empty()).filter_map(|t| t.parse().ok()).collect();
+                    let lines: Vec<&str> = text.split('\n').collect();
+                    Some(nums.windows(2).any(|w| w[0] >= 1 && w[0] <= lines.len() && w[1] <= lines[w[0] - 1].chars().count() + 1))
+                });
                 match pos_ok {
                     Some(true) => None,
                     _ => Some(("parse_error_without_position_in_file".to_string(), format!("{msg}\nfor text {text:?}"))),
